@@ -520,16 +520,17 @@ def rand_valid_packet(rng, max_rr=4, layout=None, **kw):
 
 def chain_packet(hops, tail_records=0):
     """Question example.com; record k's owner is a pointer to record k-1's owner, so record k is
-    read through k hops."""
-    b = bytearray(struct.pack(">HHHHHH", 0x1234, 0x8180, 1, hops + tail_records, 0, 0))
+    read through k hops; each tail record is read through exactly `hops` hops as well."""
+    b = bytearray(struct.pack(">HHHHHH", 0x1234, 0x8180, 1, (hops + tail_records) & 0xFFFF, 0, 0))
     b += wire_name([b"example", b"com"]) + struct.pack(">HH", 1, 1)
-    prev = 12
+    offs = [12]
     for k in range(hops):
-        here = len(b)
+        prev = offs[-1]
+        offs.append(len(b))
         b += bytes([0xC0 | (prev >> 8), prev & 0xFF]) + struct.pack(">HHIH", 1, 1, 60, 4) + bytes([10, 0, 0, k & 255])
-        prev = here
+    tgt = offs[-2] if hops >= 1 else 12
     for k in range(tail_records):
-        b += bytes([0xC0 | (prev >> 8), prev & 0xFF]) + struct.pack(">HHIH", 1, 1, 60, 4) + bytes([10, 0, 1, k & 255])
+        b += bytes([0xC0 | (tgt >> 8), tgt & 0xFF]) + struct.pack(">HHIH", 1, 1, 60, 4) + bytes([10, 0, 1, k & 255])
     return bytes(b)
 
 
